@@ -653,7 +653,7 @@ void body()
         "signal/op/signal-move-assign-empty-to-nonempty", "signal/op/destroy-signal-before-connections",
         "signal/callbacks-invoked", "signal/reentrant-calls-from-unregister"})
     vf::require_bucket(b);
-  std::uint64_t total = vf::tier<std::uint64_t>(30000, 1000000);
+  std::uint64_t total = vf::tier<std::uint64_t>(30000, 4000000);
   if (vf::has_extra("--small")) // the memcheck pass
     total = 48000;
   drive<list_runner>("intrusive-list", total);
